@@ -6,6 +6,13 @@ import os
 VERIF = os.path.dirname(os.path.dirname(os.path.abspath(__file__)))
 
 CHECKS = {
+    "C03": dict(
+        category="model_checking",
+        technique="TLA+ specs CmdGrammar (what `wrapped by hand` means, token by token; the judgement bare = explicit) and Recovery (the wrapping recovery loop against an adversarial parser: budget, passes, one nested call; termination by a lexicographic variant under weak fairness) checked by TLC; thousands of shapes rendered bare and hand-wrapped, both put through the real three-phase parse (trees compared, unequal trees executed with recording aliases) and validated against CmdGrammarTrace; every hostile string parsed under a loop-head event point and its iteration trace validated against RecoveryTrace by TLC",
+        text="TLC checks WrapIsExact/AmpOnlyLast/Equivalent on CmdGrammar and Termination, VariantDecreases, ExitKinds, DepthAtMostTwo, BoundedIterations on Recovery for every answer the parser could give; the real Execer then handles thousands of (segment atoms x chain operators x statement position x layout) shapes in both renderings - any difference in the transformed tree that is not explained by a listed deviation is decided by executing both - and >13k arbitrary strings (all strings up to length 3-4 over a 21-symbol alphabet, a hostile pool, damaged programs) whose loop-head events must be a behaviour of Recovery ending in a tree or a SyntaxError. Model checking is the right level: termination is a property of the loop's bookkeeping for all parser answers (decided by TLC), and the binding shows the code's bookkeeping is the model's.",
+        design_ref="3/C03",
+        note="Trusts TLC, equal transformed trees = equal behaviour, recording callable aliases for unequal trees; inputs are UTF-8 encodable and nest less deeply than the recursion limit. Hook guard XONSH_XONSH_VERIF=1 (event point at the loop head). Two chain defects are known findings.",
+    ),
     "C16": dict(
         category="model_checking",
         technique="TLA+ spec DirStack checked by TLC; TLC-simulated and systematic command sequences replayed on the real dirstack commands; recorded executions validated against DirStackTrace by TLC",
@@ -132,7 +139,7 @@ def main():
             "guard": "XONSH_XONSH_VERIF",
             "enable": "checks import /repo's working tree directly (PYTHONPATH=/repo, /venv/bin/python); hook points are active only when XONSH_XONSH_VERIF=1 is set in the worker environment",
             "baseline_off_cmd": "cd /repo && env -u XONSH_XONSH_VERIF /venv/bin/python -m pytest -ra -q -p no:cacheprovider --timeout=900 --continue-on-collection-errors",
-            "source_commits": ["15cb5b7"],
+            "source_commits": ["15cb5b7", "8cef7df"],
             "add_only": True,
         },
         "engines": [
